@@ -8,4 +8,5 @@ for p in $(python3 -c "import json;print(' '.join(c['property_id'] for c in json
   t1=$(date +%s)
   echo "$p rc=$rc $((t1-t0))s $(echo "$out" | grep -E ' (HELD|VIOLATED|INCONCLUSIVE) ' | tail -1 | cut -c1-150)"
   echo "$out" | grep -E '^(VIOLATION|KNOWN-FINDING|INCONCLUSIVE:|  # )' | head -6
+  if ! echo "$out" | grep -qE ' (HELD|VIOLATED|INCONCLUSIVE) '; then echo "  (no verdict line; last output:)"; echo "$out" | tail -n 8 | cut -c1-300; fi
 done
